@@ -52,6 +52,25 @@ func BlockSeccompSyscall() error {
 	return nil
 }
 
+// BlockSeccompAllThreads does what BlockSeccompSyscall does for every thread of the process (thread-sync), so that a goroutine
+// meets the enclosing filter whichever thread it runs on: to the process, seccomp(2) does not exist.
+func BlockSeccompAllThreads() error {
+	if _, _, e := syscall.RawSyscall6(syscall.SYS_PRCTL, 38 /* PR_SET_NO_NEW_PRIVS */, 1, 0, 0, 0, 0); e != 0 {
+		return e
+	}
+	prog := []syscall.SockFilter{
+		{Code: 0x20, K: 0},
+		{Code: 0x15, Jt: 0, Jf: 1, K: 317},
+		{Code: 0x06, K: 0x00050000 | 38},
+		{Code: 0x06, K: 0x7fff0000},
+	}
+	fprog := syscall.SockFprog{Len: uint16(len(prog)), Filter: &prog[0]}
+	if _, _, e := syscall.RawSyscall(317 /* seccomp */, 1 /* SET_MODE_FILTER */, 1 /* TSYNC */, uintptr(unsafe.Pointer(&fprog))); e != 0 {
+		return e
+	}
+	return nil
+}
+
 // DenyPrctlSyscall installs, on the calling thread only and without the library under test, a filter that answers
 // prctl(2) with ERRNO(EPERM) and allows everything else. A privileged caller installs it as it is (no_new_privs stays
 // clear); an unprivileged one has to set no_new_privs first.
